@@ -32,6 +32,7 @@ def scenario_for(seed, index, tier):
     compress = rng.choice([None, None, 0, 64])
     conns = []
     all_items, all_writes = [], []
+    late_answer = False
     for k in range(logins):
         enc = {'bits': rng.choice([1024, 2048]),
                'token_hex': bytes(rng.randrange(256) for _ in range(
@@ -40,6 +41,14 @@ def scenario_for(seed, index, tier):
         login = []
         if compress is not None and rng.random() < 0.5:
             login.append(['compress', compress])
+        if k == 0 and ids['cb.login.plugin_request'] is not None and \
+                rng.random() < 0.12:
+            # a plugin request right before the encryption request (the
+            # server does not wait for the answer); the application answers
+            # it itself, and only once the encryption response is on its
+            # way out: that answer must already be encrypted
+            late_answer = True
+            login.append(['plugin', 7, 'c18:late', '0102'])
         login.append(['encrypt', enc])
         if compress is not None and login[0][0] != 'compress':
             login.append(['compress', compress])
@@ -88,9 +97,11 @@ def scenario_for(seed, index, tier):
         # encryption response has to wait for it
         holder = {'hold_us': rng.choice([1000, 30000, 300000]),
                   'times': rng.choice([1, 3])}
+    if late_answer:
+        conns[0]['pipeline_plugins'] = True
     return {
         'kind': 'login', 'proto': proto, 'compress': compress, 'via': via,
-        'holder': holder,
+        'holder': holder, 'late_answer': late_answer,
         'logins': logins, 'items': all_items, 'writes': all_writes,
         'server': {'conns': conns},
         'net': {'latency_us': rng.choice([50, 500]), 'segment': seg,
@@ -513,6 +524,25 @@ def execute(scenario, tape):
                     st['mixed'].append((ln, bytes(got)))
                 st['logs'][ln].append((p.channel, bytes(p.data).hex()))
         conn.register_packet_listener(on_packet, Packet, early=True)
+        if scenario.get('late_answer'):
+            from minecraft.networking.packets import clientbound
+            from minecraft.exceptions import IgnorePacket as _Ignore
+            asked = []
+
+            def on_request(p):
+                asked.append(p.message_id)
+                raise _Ignore
+
+            def on_enc_response(p):
+                for mid in asked:
+                    conn.write_packet(serverbound.login.PluginResponsePacket(
+                        message_id=mid, successful=False))
+                del asked[:]
+            conn.register_packet_listener(
+                on_request, clientbound.login.PluginRequestPacket, early=True)
+            conn.register_packet_listener(
+                on_enc_response, serverbound.login.EncryptionResponsePacket,
+                early=True, outgoing=True)
         markers = []
 
         def on_marker(p):
@@ -666,6 +696,16 @@ def check_login(scenario, w, st, res, ids):
             wire_ct = bytes(app.conn.c2s_bytes[start:])
             pt = bytearray()
             thr = app.deframer.threshold
+            if k == 0 and scenario.get('late_answer'):
+                # the application's own plugin answer, queued while the
+                # encryption response went out: first thing under the cipher
+                steps = scenario['server']['conns'][0]['login']
+                pre = steps[0][1] if steps[0][0] == 'compress' else None
+                payload = wire.varint(ids['sb.login.plugin_response']) + \
+                    wire.varint(7) + b'\x00'
+                pt += (wire.varint(len(payload)) + payload) if pre is None \
+                    else (wire.varint(len(payload) + 1) + b'\x00' + payload)
+                res.probes['answer-queued-during-encryption-response'] = 1
             for pid, body in want:
                 payload = wire.varint(pid) + body
                 if thr is None:
